@@ -244,9 +244,15 @@ EXPIRY_OF = {'past': lambda today, k: ["d", [today - (2, 3, 30, 400, 9000)[k % 5
 
 
 def observe(job):
-    """one public call on freshly rendered objects; returns the observation (pure function of the job).
-    With job['first'] (an earlier configuration) that call is made first and the object it really returned is handed
-    over as `data`, with expiries dealt to its rows from job['plan']: the observation then is the second call."""
+    """the (last) observation of a job"""
+    return observe_all(job)[-1]
+
+
+def observe_all(job):
+    """one public call on freshly rendered objects; returns the observation(s) (pure function of the job).
+    With job['first'] (an earlier configuration) that call is made first - it is an observation of its own - and the object
+    it really returned is handed over as `data` (when it is a table with one row per key: only that can be written down as
+    previously computed values), with expiries dealt to its rows from job['plan']: the second observation."""
     import pyg_base
     from pyg_base import perdictable, join, dictable
     logging.getLogger('pyg').setLevel(logging.ERROR)
@@ -260,17 +266,22 @@ def observe(job):
     sig = lambda defaults: min(form.get('sig', 0), len(names)) if dargs(defaults) is not None else 0
     data_obj = None
     speller = Speller(form)
+    history = []
     if job.get('first') is not None:
         on, on_arg, inputs, renames, defaults, _ = render(job['first'], form, rng, speller=speller)
         f0, _calls0 = make_f(len(names), sig(defaults))
         try:
             res1 = perdictable(f0, on=on_arg, renames=renames or None, defaults=dargs(defaults))(**inputs)
         except Exception as e:        # the first call already fails: it is the observation
-            return {'api': 'run', 'c': job['first'], 'today': today, 'form': form, 'salt': job['salt'], 'chained': False,
+            return [{'api': 'run', 'c': job['first'], 'today': today, 'form': form, 'salt': job['salt'], 'chained': False,
                     'alpha': on == sorted(on), 'out': {'kind': 'exc', 'cls': type(e).__name__}, 'same': False,
-                    'calls': [[tag(v) for v in args] for args in _calls0]}
+                    'calls': [[tag(v) for v in args] for args in _calls0]}]
         p1 = project(res1, on, names, 'run', form)
-        if isinstance(res1, dictable) and p1['kind'] == 'table':
+        history.append({'api': 'run', 'c': job['first'], 'today': today, 'form': form, 'salt': job['salt'], 'chained': False,
+                        'alpha': on == sorted(on), 'out': p1, 'same': False, 'calls': [[tag(v) for v in args] for args in _calls0]})
+        if not (isinstance(res1, dictable) and p1['kind'] == 'table' and len({json.dumps(r['key']) for r in p1['rows']}) == len(p1['rows'])):
+            return history                   # nothing that could be handed on as previously computed values
+        else:
             data_obj = res1
             # the rows of the real object: its keys are spelt as they came back (sp 0 = "as returned")
             rows = sorted([dict(r, sp=0) for r in p1['rows']], key=lambda r: r['key'])
@@ -305,17 +316,17 @@ def observe(job):
         o['same'] = False
     if api == 'run':
         o['calls'] = [[tag(v) for v in args] for args in calls]
-    return o
+    return history + [o]
 
 
 def pmap(jobs):
-    """observations for all jobs, in order; the work is spread over processes (observe is pure)"""
+    """observations for all jobs, in order (a chained job gives two); the work is spread over processes (observe_all is pure)"""
     nproc = int(os.environ.get('VERIF_PY_WORKERS', min(16, os.cpu_count() or 1)))
     if nproc <= 1 or len(jobs) < 400:
-        return [observe(j) for j in jobs]
+        return [o for j in jobs for o in observe_all(j)]
     import multiprocessing
     with multiprocessing.get_context('fork').Pool(nproc) as pool:
-        return pool.map(observe, jobs, chunksize=max(1, min(500, len(jobs) // (4 * nproc))))
+        return [o for os_ in pool.map(observe_all, jobs, chunksize=max(1, min(500, len(jobs) // (4 * nproc)))) for o in os_]
 
 
 def canon(case):
